@@ -19,3 +19,147 @@ Proof.
   - split; [discriminate|]. intros [x [E1 [E2 H]]]. inversion E1; subst.
     apply re_match_iff in H. congruence.
 Qed.
+
+(* ---- extend_base_type's registry for string types ---------------------------------------------
+   The tree as it was: register_key = ("matching " + regex.pattern, str) — the pattern TEXT only (kf = false);
+   with fixes/C20-string-type-key-ignores-flags.patch: ("matching " + regex.pattern, regex.flags, str)
+   (kf = true; which one the source has is read by the translator into Gen/C20Registry.v).
+   extend_base_type: a key already registered gives the type made first back when the names agree and
+   ValueError when they differ; add_type: a new key under a name already in use is a ValueError too.
+   The registry maps the key to (name, compiled pattern of the first creation). `compile text flags` is
+   re.compile — external. *)
+
+(* decidable equality of compiled patterns (for the guard) *)
+Definition cr_eqb (a b : N * N) : bool := N.eqb (fst a) (fst b) && N.eqb (snd a) (snd b).
+Fixpoint rx_eqb (a b : rx) : bool :=
+  match a, b with
+  | REmp, REmp | REps, REps => true
+  | RCls r1 n1, RCls r2 n2 => list_eqb cr_eqb r1 r2 && Bool.eqb n1 n2
+  | RCat a1 a2, RCat b1 b2 | RAlt a1 a2, RAlt b1 b2 => rx_eqb a1 b1 && rx_eqb a2 b2
+  | RStar a1, RStar b1 => rx_eqb a1 b1
+  | _, _ => false
+  end.
+Definition pat_eqb (p q : pat) : bool :=
+  rx_eqb (p_body p) (p_body q) && Bool.eqb (p_end p) (p_end q) && Bool.eqb (p_multi p) (p_multi q).
+
+Lemma cr_eqb_spec a b : cr_eqb a b = true <-> a = b.
+Proof.
+  destruct a as [a1 a2], b as [b1 b2]. unfold cr_eqb. simpl. rewrite andb_true_iff, !N.eqb_eq. split.
+  - intros [-> ->]. reflexivity.
+  - intros E. inversion E. auto.
+Qed.
+
+Lemma rx_eqb_sound a : forall b, rx_eqb a b = true -> a = b.
+Proof.
+  induction a; destruct b; simpl; intros H; try discriminate; auto.
+  - apply andb_true_iff in H. destruct H as [H1 H2].
+    apply (list_eqb_spec cr_eqb cr_eqb_spec) in H1. apply Bool.eqb_prop in H2. congruence.
+  - apply andb_true_iff in H. destruct H as [H1 H2]. f_equal; auto.
+  - apply andb_true_iff in H. destruct H as [H1 H2]. f_equal; auto.
+  - f_equal; auto.
+Qed.
+
+Lemma rx_eqb_refl a : rx_eqb a a = true.
+Proof.
+  induction a; simpl; auto.
+  - rewrite Bool.eqb_reflx, andb_true_r. apply (list_eqb_spec cr_eqb cr_eqb_spec). reflexivity.
+  - rewrite IHa1, IHa2. reflexivity.
+  - rewrite IHa1, IHa2. reflexivity.
+Qed.
+
+Lemma pat_eqb_sound p q : pat_eqb p q = true -> p = q.
+Proof.
+  destruct p, q. unfold pat_eqb. simpl. intros H.
+  apply andb_true_iff in H. destruct H as [H H3]. apply andb_true_iff in H. destruct H as [H1 H2].
+  apply rx_eqb_sound in H1. apply Bool.eqb_prop in H2. apply Bool.eqb_prop in H3. congruence.
+Qed.
+
+Lemma pat_eqb_refl p : pat_eqb p p = true.
+Proof. unfold pat_eqb. rewrite rx_eqb_refl, !Bool.eqb_reflx. reflexivity. Qed.
+
+Definition skey := (str * str)%type.
+Definition skey_eqb (a b : skey) : bool := str_eqb (fst a) (fst b) && str_eqb (snd a) (snd b).
+Definition str_registry := list (skey * (str * pat)).
+
+Fixpoint reg_find (reg : str_registry) (k : skey) : option (str * pat) :=
+  match reg with
+  | [] => None
+  | (k', t) :: reg' => if skey_eqb k' k then Some t else reg_find reg' k
+  end.
+
+Definition name_used (reg : str_registry) (name : str) : bool :=
+  existsb (fun e => str_eqb (fst (snd e)) name) reg.
+
+Section StrRegistry.
+  Variable compile : str -> str -> pat.
+  Variable kf : bool.
+
+  Definition key_of (text flags : str) : skey := (text, if kf then flags else []).
+
+  (* None = ValueError *)
+  Definition create_str (reg : str_registry) (name text flags : str) : option pat * str_registry :=
+    match reg_find reg (key_of text flags) with
+    | Some (n, p0) => if str_eqb n name then (Some p0, reg) else (None, reg)
+    | None =>
+        if name_used reg name then (None, reg)
+        else (Some (compile text flags), (key_of text flags, (name, compile text flags)) :: reg)
+    end.
+
+  (* the guard: the key is new, or it was registered with this very compiled pattern *)
+  Definition str_key_guard (reg : str_registry) (text flags : str) : bool :=
+    match reg_find reg (key_of text flags) with Some (_, p0) => pat_eqb p0 (compile text flags) | None => true end.
+
+  Lemma create_str_guarded reg name text flags t reg' :
+    str_key_guard reg text flags = true -> create_str reg name text flags = (Some t, reg') ->
+    forall v, construct_str t v = construct_str (compile text flags) v.
+  Proof.
+    unfold str_key_guard, create_str. destruct (reg_find reg (key_of text flags)) as [[n p0]|].
+    - intros G. apply pat_eqb_sound in G. subst. destruct (str_eqb n name); intros H; inversion H; subst; auto.
+    - intros _. destruct (name_used reg name); intros H; inversion H; subst. auto.
+  Qed.
+
+  (* every entry holds the compilation of its own key *)
+  Definition reg_wf (reg : str_registry) : Prop :=
+    forall k n p, In (k, (n, p)) reg -> p = compile (fst k) (snd k).
+
+  Lemma reg_find_in reg k n p : reg_find reg k = Some (n, p) -> exists k', In (k', (n, p)) reg /\ skey_eqb k' k = true.
+  Proof.
+    induction reg as [|[k' t] reg IH]; simpl; [discriminate|].
+    destruct (skey_eqb k' k) eqn:E.
+    - intros H. inversion H; subst. exists k'. auto.
+    - intros H. destruct (IH H) as [k2 [I E2]]. exists k2. auto.
+  Qed.
+
+  Lemma skey_eqb_eq a b : skey_eqb a b = true -> a = b.
+  Proof.
+    destruct a, b. unfold skey_eqb. simpl. intros H. apply andb_true_iff in H. destruct H as [H1 H2].
+    apply str_eqb_spec in H1. apply str_eqb_spec in H2. congruence.
+  Qed.
+
+  Lemma wf_guard reg text flags : kf = true -> reg_wf reg -> str_key_guard reg text flags = true.
+  Proof.
+    intros K W. unfold str_key_guard. destruct (reg_find reg (key_of text flags)) as [[n p0]|] eqn:E; auto.
+    apply reg_find_in in E. destruct E as [k' [I E]]. apply skey_eqb_eq in E. subst k'.
+    apply W in I. unfold key_of in I. rewrite K in I. simpl in I. subst. apply pat_eqb_refl.
+  Qed.
+
+  Lemma create_str_wf reg name text flags r reg' :
+    kf = true -> reg_wf reg -> create_str reg name text flags = (r, reg') -> reg_wf reg'.
+  Proof.
+    intros K W. unfold create_str. destruct (reg_find reg (key_of text flags)) as [[n p0]|].
+    - destruct (str_eqb n name); intros H; inversion H; subst; auto.
+    - destruct (name_used reg name); intros H; inversion H; subst; auto.
+      intros k n p [I|I]; [| eapply W; eauto].
+      inversion I; subst. unfold key_of. rewrite K. reflexivity.
+  Qed.
+
+  (* with the flags in the key, no guard is needed *)
+  Lemma create_str_flags_in_key reg name text flags t reg' :
+    kf = true -> reg_wf reg -> create_str reg name text flags = (Some t, reg') ->
+    (forall v, construct_str t v = construct_str (compile text flags) v) /\ reg_wf reg'.
+  Proof.
+    intros K W H. split.
+    - eapply create_str_guarded; eauto. apply wf_guard; auto.
+    - eapply create_str_wf; eauto.
+  Qed.
+End StrRegistry.
